@@ -245,6 +245,8 @@ def build(case, work, name="plt00010"):
         gen.zero_fine(m, case["gen"]["seed"])
     if case.get("ties"):
         gen.tie_extrema(m, case["gen"]["seed"])
+    if case.get("uniform_boxes"):
+        gen.uniform_boxes(m, case["gen"]["seed"])
     if case.get("long_max"):
         gen.plant_long_max(m, case["gen"]["seed"])
     if case.get("poison_covered"):
